@@ -569,7 +569,16 @@ func cmdCheck(args []string) int {
 		}
 		if r.Model != nil {
 			rp["model"] = r.Model
-			confirmed = tryReplay(P, j.rep, o, r, rp, *repo)
+			// a replay is an extra: whatever goes wrong while building it, the violation is still reported
+			func() {
+				defer func() {
+					if e := recover(); e != nil {
+						rp["replay_error"] = fmt.Sprint(e)
+						confirmed = false
+					}
+				}()
+				confirmed = tryReplay(P, j.rep, o, r, rp, *repo)
+			}()
 		}
 		path := writeReplay(replayDir, o.Name, rp)
 		if confirmed {
